@@ -1,4 +1,6 @@
 import GeoVerif.Gen.SrcHull
+import GeoVerif.Gen.SrcHullPoly
+import GeoVerif.Gen.SrcHullMulti
 import GeoVerif.Props.C10
 /-!
 # Source tie for `convex_hull` (`_geometry.py`)
@@ -139,6 +141,77 @@ theorem convexHull_eq (pts : List Pt) : Src.Hull.convexHull pts = .ok (hull pts)
   unfold Src.Hull.convexHull hull chain
   simp only [key]
   grind
+
+/-! ### the wrappers: `GeoPolygon(ring)` (`structures.py`) and `Multi*.convex_hull()` (`multistructures.py`) -/
+
+/-- **the translated constructor `GeoPolygon(outline)`** (all optional parameters at their defaults) stores the model's
+    `mkOutline outline`; on an empty outline `outline[0]` raises `IndexError` -/
+theorem polyInit_eq (o : List Pt) :
+    Src.HullPoly.init o = match o with
+      | [] => .error "ERR:Index"
+      | _ :: _ => .ok (mkOutline o) := by
+  cases o with
+  | nil => simp [Src.HullPoly.init, GV.Py.getIdx]
+  | cons x xs =>
+    have h0 : GV.Py.getIdx (x :: xs) 0 = .ok x := rfl
+    have hl : GV.Py.negIdx (x :: xs) 1 = .ok ((x :: xs).getLast (by simp)) := by
+      have : (x :: xs).reverse[1 - 1]? = some ((x :: xs).getLast (by simp)) := by
+        rw [show (1 - 1 : Nat) = 0 from rfl, ← List.head?_eq_getElem?, List.head?_reverse]
+        exact List.getLast?_eq_some_getLast _
+      unfold GV.Py.negIdx; rw [this]
+    have hh : (x :: xs).head? = some x := rfl
+    have hg : (x :: xs).getLast? = some ((x :: xs).getLast (by simp)) := List.getLast?_eq_some_getLast _
+    unfold Src.HullPoly.init mkOutline closeRing
+    simp only [h0, hl, hh, hg]
+    grind
+
+/-- the model's `hullPoly` is the constructor applied to the hull -/
+theorem hullPoly_eq_init (v : List Pt) :
+    (match Src.Hull.convexHull v with
+      | .error e => .error e
+      | .ok r => Src.HullPoly.init r) = hullPoly v := by
+  rw [convexHull_eq]
+  simp only [polyInit_eq, hullPoly]
+  cases hull v <;> rfl
+
+section wrappers
+variable {μ : Type} (cen : μ → Pt) (verts bc : μ → List Pt)
+
+/-- `MultiGeoPoint.convex_hull()`: the polygon over the hull of the members' centroids -/
+theorem multiPointHull_eq (ms : List μ) :
+    Src.HullMulti.multiPointHull cen verts bc ms = hullPoly (ms.map cen) := by
+  unfold Src.HullMulti.multiPointHull; exact hullPoly_eq_init _
+
+/-- `MultiGeoLineString.convex_hull()`: … of all members' vertices -/
+theorem multiLineHull_eq (ms : List μ) :
+    Src.HullMulti.multiLineHull cen verts bc ms = hullPoly (ms.flatMap verts) := by
+  unfold Src.HullMulti.multiLineHull; exact hullPoly_eq_init _
+
+/-- `MultiGeoPolygon.convex_hull(**kwargs)`: … of all members' `bounding_coords(**kwargs)` -/
+theorem multiPolyHull_eq (ms : List μ) :
+    Src.HullMulti.multiPolyHull cen verts bc ms = hullPoly (ms.flatMap bc) := by
+  unfold Src.HullMulti.multiPolyHull; exact hullPoly_eq_init _
+
+end wrappers
+
+/-- with the model's vertex collection of the simple shapes, the three translated wrappers are the model's `multiHull` -/
+theorem src_multiHull (ms : List Simple) (cen : Simple → Pt) (verts bc : Simple → List Pt) :
+    Src.HullMulti.multiPolyHull cen verts Simple.vertices ms = multiHull ms ∧
+    Src.HullMulti.multiLineHull cen Simple.vertices bc ms = multiHull ms ∧
+    (∀ ps : List Pt, Src.HullMulti.multiPointHull (fun p : Pt => p) (fun _ => []) (fun _ => []) ps =
+      multiHull (ps.map Simple.point)) := by
+  refine ⟨multiPolyHull_eq _ _ _ ms, multiLineHull_eq _ _ _ ms, fun ps => ?_⟩
+  rw [multiPointHull_eq, multiHull]
+  congr 1
+  induction ps with
+  | nil => rfl
+  | cons p ps ih => simp [Simple.vertices, List.flatMap_cons] at ih ⊢; exact ih
+
+/-- the wrapper's polygon *is* the hull ring (the constructor changes nothing) for inputs within 180° of longitude -/
+theorem src_multi_hull_ring {μ : Type} (cen : μ → Pt) (verts bc : μ → List Pt) (ms : List μ)
+    (hne : ms.flatMap bc ≠ []) (hspan : LonSpan (ms.flatMap bc)) :
+    Src.HullMulti.multiPolyHull cen verts bc ms = .ok (hull (ms.flatMap bc)) := by
+  rw [multiPolyHull_eq, hullPoly_eq hne hspan]
 
 /-! ### headline theorems of `Props/C10.lean`, restated for the translated source -/
 
